@@ -522,6 +522,13 @@ def _worker(args):
             spec, info = GEN[path](common.sub_rng(seed, "encodecorr2", "headers", path, k), k, vary=True)
         else:
             spec, info = GEN[path](common.sub_rng(seed, "encodecorr2", path, k), k)
+        if fixed is None and len(rest) > 1 and rest[1] == "args":
+            # the argument-spelling class (`encodecorr.respell`): every container-typed constructor argument in another
+            # container the constructors accept — per section and per argument for the bodies' column-name arguments.
+            # The header CONTAINERS stay lists (the serialisers of this module read the constructed lists; the
+            # container step is Model/HeaderInput.lean, C06)
+            ec.respell(common.sub_rng(seed, "encodecorr2", "argspelling", path, k, str(rest[0])), spec, info,
+                       drop=("sections", "headers", "headers.inner"))
         if fixed is None:
             ec.draw_unserialized(seed, spec, info, "encodecorr2", path, k, *map(str, rest))
             _resync_shared(spec)
@@ -555,14 +562,18 @@ def _worker(args):
 
 
 def generate_and_compare(seed: int, n_per_path: int, paths=PATHS, fixed=None, headers: int = 0, shapes: int = 0,
-                         shared: int = 0):
+                         shared: int = 0, argspelled: int = 0):
     """`headers` = number of additional documents of the header-variation class per table path (multi, nested1);
     `shapes` = number of additional documents of the data-shape class on the multi-section path;
-    `shared` = number of additional documents of the shared-component class on the multi-section path"""
+    `shared` = number of additional documents of the shared-component class on the multi-section path;
+    `argspelled` = number of additional documents per path of the argument-spelling class, over the path's document
+    classes in turn (plain stream / header variation / data shapes / shared components where the path has them)"""
     jobs = [(seed, p, k, None) for p in paths for k in range(n_per_path)]
     jobs += [(seed, p, k, None, True) for p in paths if p != "figure" for k in range(headers)]
     jobs += [(seed, p, k, None, "shapes") for p in paths if p == "multi" for k in range(shapes)]
     jobs += [(seed, p, k, None, "shared") for p in paths if p == "multi" for k in range(shared)]
+    modes = {"multi": (False, True, "shapes", "shared"), "figure": (False,), "nested1": (False, True)}
+    jobs += [(seed, p, k, None, modes[p][k % len(modes[p])], "args") for p in paths for k in range(argspelled)]
     jobs += [(seed, f["path"], -1, f) for f in (fixed or [])]
     outs = common.pool_map(_worker, jobs, chunksize=8)
     for o in outs:
@@ -576,9 +587,10 @@ def run(res, tier):
     n = 150 if tier == "quick" else 1200
     from . import datashapes
 
-    outs = (generate_and_compare(res.seed, n, headers=n // 3, shapes=n // 3) +
-            generate_and_compare(res.seed, n // 3, paths=EXTRA_PATHS, headers=n // 6))
+    outs = (generate_and_compare(res.seed, n, headers=n // 3, shapes=n // 3, argspelled=n // 3) +
+            generate_and_compare(res.seed, n // 3, paths=EXTRA_PATHS, headers=n // 6, argspelled=n // 6))
     for o in outs:
+        ec.count_spelling(res, o["info"], f"spell:encode2:{o['path']}:{o['verdict']}")
         case = dict(level="encode-doc2", path=o["path"], spec=o["spec"], info=o["info"])
         res.count(f"encode2:{o['path']}:{o['verdict']}")
         ec.count_header_rows(res, o["info"], prefix="hdrcells2")
